@@ -7,6 +7,12 @@ theories/Spec/Eval.vos theories/Spec/Eval.vok theories/Spec/Eval.required_vos: t
 theories/Spec/System.vo theories/Spec/System.glob theories/Spec/System.v.beautified theories/Spec/System.required_vo: theories/Spec/System.v theories/Spec/Eval.vo
 theories/Spec/System.vio: theories/Spec/System.v theories/Spec/Eval.vio
 theories/Spec/System.vos theories/Spec/System.vok theories/Spec/System.required_vos: theories/Spec/System.v theories/Spec/Eval.vos
+theories/Model/Context.vo theories/Model/Context.glob theories/Model/Context.v.beautified theories/Model/Context.required_vo: theories/Model/Context.v 
+theories/Model/Context.vio: theories/Model/Context.v 
+theories/Model/Context.vos theories/Model/Context.vok theories/Model/Context.required_vos: theories/Model/Context.v 
+theories/Model/ContextOracle.vo theories/Model/ContextOracle.glob theories/Model/ContextOracle.v.beautified theories/Model/ContextOracle.required_vo: theories/Model/ContextOracle.v theories/Model/Context.vo
+theories/Model/ContextOracle.vio: theories/Model/ContextOracle.v theories/Model/Context.vio
+theories/Model/ContextOracle.vos theories/Model/ContextOracle.vok theories/Model/ContextOracle.required_vos: theories/Model/ContextOracle.v theories/Model/Context.vos
 theories/Model/EvalImpl.vo theories/Model/EvalImpl.glob theories/Model/EvalImpl.v.beautified theories/Model/EvalImpl.required_vo: theories/Model/EvalImpl.v theories/Spec/Eval.vo
 theories/Model/EvalImpl.vio: theories/Model/EvalImpl.v theories/Spec/Eval.vio
 theories/Model/EvalImpl.vos theories/Model/EvalImpl.vok theories/Model/EvalImpl.required_vos: theories/Model/EvalImpl.v theories/Spec/Eval.vos
@@ -16,6 +22,9 @@ theories/Model/Expr.vos theories/Model/Expr.vok theories/Model/Expr.required_vos
 theories/Proofs/BVLemmas.vo theories/Proofs/BVLemmas.glob theories/Proofs/BVLemmas.v.beautified theories/Proofs/BVLemmas.required_vo: theories/Proofs/BVLemmas.v theories/Spec/BV.vo
 theories/Proofs/BVLemmas.vio: theories/Proofs/BVLemmas.v theories/Spec/BV.vio
 theories/Proofs/BVLemmas.vos theories/Proofs/BVLemmas.vok theories/Proofs/BVLemmas.required_vos: theories/Proofs/BVLemmas.v theories/Spec/BV.vos
+theories/Proofs/ContextProofs.vo theories/Proofs/ContextProofs.glob theories/Proofs/ContextProofs.v.beautified theories/Proofs/ContextProofs.required_vo: theories/Proofs/ContextProofs.v theories/Model/Context.vo
+theories/Proofs/ContextProofs.vio: theories/Proofs/ContextProofs.v theories/Model/Context.vio
+theories/Proofs/ContextProofs.vos theories/Proofs/ContextProofs.vok theories/Proofs/ContextProofs.required_vos: theories/Proofs/ContextProofs.v theories/Model/Context.vos
 theories/Proofs/EvalImplProofs.vo theories/Proofs/EvalImplProofs.glob theories/Proofs/EvalImplProofs.v.beautified theories/Proofs/EvalImplProofs.required_vo: theories/Proofs/EvalImplProofs.v theories/Model/EvalImpl.vo theories/Proofs/ExprLemmas.vo
 theories/Proofs/EvalImplProofs.vio: theories/Proofs/EvalImplProofs.v theories/Model/EvalImpl.vio theories/Proofs/ExprLemmas.vio
 theories/Proofs/EvalImplProofs.vos theories/Proofs/EvalImplProofs.vok theories/Proofs/EvalImplProofs.required_vos: theories/Proofs/EvalImplProofs.v theories/Model/EvalImpl.vos theories/Proofs/ExprLemmas.vos
@@ -28,3 +37,6 @@ theories/Proofs/ExprLemmas.vos theories/Proofs/ExprLemmas.vok theories/Proofs/Ex
 theories/Props/C06.vo theories/Props/C06.glob theories/Props/C06.v.beautified theories/Props/C06.required_vo: theories/Props/C06.v theories/Model/EvalImpl.vo theories/Proofs/EvalProofs.vo theories/Proofs/EvalImplProofs.vo
 theories/Props/C06.vio: theories/Props/C06.v theories/Model/EvalImpl.vio theories/Proofs/EvalProofs.vio theories/Proofs/EvalImplProofs.vio
 theories/Props/C06.vos theories/Props/C06.vok theories/Props/C06.required_vos: theories/Props/C06.v theories/Model/EvalImpl.vos theories/Proofs/EvalProofs.vos theories/Proofs/EvalImplProofs.vos
+theories/Props/C12.vo theories/Props/C12.glob theories/Props/C12.v.beautified theories/Props/C12.required_vo: theories/Props/C12.v theories/Model/Context.vo theories/Model/ContextOracle.vo theories/Proofs/ContextProofs.vo
+theories/Props/C12.vio: theories/Props/C12.v theories/Model/Context.vio theories/Model/ContextOracle.vio theories/Proofs/ContextProofs.vio
+theories/Props/C12.vos theories/Props/C12.vok theories/Props/C12.required_vos: theories/Props/C12.v theories/Model/Context.vos theories/Model/ContextOracle.vos theories/Proofs/ContextProofs.vos
